@@ -154,7 +154,7 @@ Definition of_pres {A} (f : A -> expect) (r : pres A) : expect :=
 Definition run_model (fixed : bool) (cap : option nat) (c : ccase) : expect :=
   let lf := case_lf c in
   match c_kind c with
-  | KPy => of_pres (fun r => EOkPy (fst r) (snd r)) (extract_python_block (c_lines c) (c_start c))
+  | KPy => of_pres (fun r => EOkPy (fst r) (snd r)) (extract_python_block_v fixed (c_lines c) (c_start c))
   | KCond => of_pres (fun r => EOkTok (fst r) (snd r))
                      (extract_conditional_block_v fixed cap lf (c_lines c) (c_start c))
   | KLoop => of_pres (fun r => EOkTok (fst r) (snd r))
